@@ -14,7 +14,7 @@ mut = os.path.join(seed, "mutant")
 patch = os.path.join(mut, "patch.diff")
 
 def sh(cmd, cwd=seed, timeout=900):
-    p = subprocess.run(cmd, shell=True, cwd=cwd, stdout=subprocess.PIPE, stderr=subprocess.STDOUT, text=True, timeout=timeout)
+    p = subprocess.run(cmd, shell=True, cwd=cwd, stdout=subprocess.PIPE, stderr=subprocess.STDOUT, text=True, errors="replace", timeout=timeout)
     return p.returncode, p.stdout
 
 def build():
